@@ -10,6 +10,15 @@ import Mahotas.Proofs.C08Kernels
 import Mahotas.Proofs.C08Defined
 import Mahotas.Proofs.C05Nd
 import Mahotas.Proofs.C13BBox
+import Mahotas.Proofs.C08Ties
+import Mahotas.Proofs.C08TiesMark
+import Mahotas.Proofs.C08TiesDilate
+import Mahotas.Proofs.C08TiesHitmiss
+import Mahotas.Properties.C01
+import Mahotas.Properties.C06
+import Mahotas.Properties.C07
+import Mahotas.Properties.C13
+import Mahotas.Properties.C14
 import Mathlib.Data.List.Basic
 import Mahotas.Generated.Normalise
 import Mahotas.Generated.CopyGuards
@@ -603,3 +612,270 @@ example : FilterArgs vF vB false ∧ FilterArgs vC vB false ∧ SameLogical memF
           ⟨⟨rfl, by decide⟩, ⟨rfl, by decide⟩, by (unfold View.Pos; decide), by (unfold View.Pos; decide), rfl, fun _ => rfl⟩,
           ⟨rfl, by decide⟩, by decide, by decide⟩
 end Mahotas.C08.Example
+
+
+/-! ## Round 3 — every view kernel *is* the owning property's logical model (value-level ties), and therefore returns
+the property's specification for ANY memory layout of its arguments (`C08_<kernel>_view_correct`)
+
+`toImg mem v` / `logical mem v` are the logical array (C order) a (memory, view) pair presents; `FilterArgs` is what the
+wrappers and native guards establish (well-formed views, at least one element per axis, equal rank, and a
+C-contiguous filter where the kernel indexes its raw data pointer). Unwritten cells are `none`: an equation with
+`….map some` on the right also says that every cell is written (F15). -/
+
+namespace Mahotas.C08
+theorem View.Pos.pos {v : View} (h : v.Pos) : ∀ d ∈ v.shape, 0 < d := fun d hd => by have := h d hd; omega
+
+theorem map_some_getD {β : Type} (X : Array β) (i : Nat) (d : β) (hi : i < X.size) :
+    (X.map some).getD i none = some (X.getD i d) := by
+  simp [Array.getD_eq_getD_getElem?, hi]
+end Mahotas.C08
+
+/-- **erode over views = `C01.erodeModel`.** For every dtype, every (memory, view) pair of the image (any strides:
+negative, zero, non-monotone, offset) and of the structuring element: the output of the view-level `erode<T>` is, cell
+by cell, `some` of the array `C01.erodeModel` computes from the *logical* image and the support of the *logical*
+element — the very definition C01's theorems are about. -/
+theorem C08_erodeView_eq_C01 (dt : DT) (mA : Int → Int) (vA : View) (mB : Int → Int) (vB : View)
+    (h : FilterArgs vA vB dt.isBool) :
+    erodeView dt mA vA mB vB =
+      (C01.erodeModel dt (toImg mA vA) (C01.support vB.shape (logical mB vB).toArray dt.isBool)).map some :=
+  erodeView_eq_C01 dt mA vA mB vB h
+
+/-- **erode is correct for any memory layout.** For every integer dtype and bool, every view of an in-range image and
+every view of an admissible structuring element, the view-level kernel writes at every pixel the lattice definition
+`min_{k ∈ Bc} saturate(A[clamp(p+k)] − Bc[k])` of the logical arrays (`C01_erode_model_eq_spec` composed with the tie). -/
+theorem C08_erode_view_correct (dt : DT) (hdt : dt.WF ∨ dt = dtBool) (mA : Int → Int) (vA : View) (mB : Int → Int)
+    (vB : View) (h : FilterArgs vA vB dt.isBool) (hA : C01.ImageInRange dt (toImg mA vA))
+    (hB : C01.AdmissibleElem dt (C01.support vB.shape (logical mB vB).toArray dt.isBool)) :
+    erodeView dt mA vA mB vB =
+      (((allPos vA.shape).map (C01.erodeSpecAt dt (toImg mA vA)
+        (C01.support vB.shape (logical mB vB).toArray dt.isBool))).toArray).map some := by
+  rw [erodeView_eq_C01 dt mA vA mB vB h,
+    (C01_erode_model_eq_spec dt hdt (toImg mA vA) _ h.posA.pos hA hB).2]
+  rfl
+
+/-- **dilate over views = `C01.dilateModel`.** The scatter kernel reads the input through its iterator and writes
+through a filter iterator built on the C-contiguous output: `i + Σ cstride·(q − p)` is the flat index of the clamped
+target `q`, and the `Option` cells of the view model are `some` of the cells of C01's scatter model throughout. -/
+theorem C08_dilateView_eq_C01 (dt : DT) (mA : Int → Int) (vA : View) (mB : Int → Int) (vB : View)
+    (wfA : vA.WF) (h : FilterArgs (outView vA.shape) vB dt.isBool) :
+    dilateView dt mA vA mB vB =
+      (C01.dilateModel dt (toImg mA vA) (C01.support vB.shape (logical mB vB).toArray dt.isBool)).map some :=
+  dilateView_eq_C01 dt mA vA mB vB wfA h
+
+/-- **dilate is correct for any memory layout** at every pixel C01 proves the scatter kernel correct at (regular —
+star-shaped, flat — elements: everywhere; any admissible element: where the element box fits): the written cell is the
+lattice definition `max_{k ∈ Bc} saturate(A[clamp(q−k)] + Bc[k])` of the logical arrays. -/
+theorem C08_dilate_view_correct (dt : DT) (hdt : C01.DTypeOK dt) (mA : Int → Int) (vA : View) (mB : Int → Int)
+    (vB : View) (wfA : vA.WF) (h : FilterArgs (outView vA.shape) vB dt.isBool)
+    (hA : C01.ImageInRange dt (toImg mA vA))
+    (hB : C01.AdmissibleElem dt (C01.support vB.shape (logical mB vB).toArray dt.isBool))
+    (q : List Int) (hq : inside vA.shape q = true)
+    (hobs : (C01.starShaped vB.shape (((C01.support vB.shape (logical mB vB).toArray dt.isBool).filter
+                (C01.isMember dt)).map (·.1)) &&
+             C01.flatHeights (((C01.support vB.shape (logical mB vB).toArray dt.isBool).filter
+                (C01.isMember dt)).map (·.2)) ||
+             C01.boxInterior vA.shape vB.shape q) = true) :
+    (dilateView dt mA vA mB vB).getD (ravelI vA.shape q) none =
+      some (C01.dilateSpecAt dt (toImg mA vA) (C01.support vB.shape (logical mB vB).toArray dt.isBool) q) := by
+  have hsz := (dilateView_defined dt mA vA mB vB).1
+  have hspec := C01_dilate_eq_spec_where_observed dt hdt (toImg mA vA) vB.shape
+    (C01.support vB.shape (logical mB vB).toArray dt.isBool) q h.posA.pos h.rank.symm
+    (C01_support_offsets_in_box vB.shape _ dt.isBool).1 hA hB hq hobs
+  rw [dilateView_eq_C01 dt mA vA mB vB wfA h] at hsz ⊢
+  rw [map_some_getD _ _ dt.lo (by rw [Array.size_map] at hsz; rw [hsz]; exact C01.ravelI_lt _ _ hq)]
+  exact congrArg some hspec
+
+/-- **convolve over views = `C06.convAcc` tabulated** (then the cast `T(cur)`), in any arithmetic — the driver runs
+the polymorphic kernel at exact integers, C06 at `Float`. -/
+theorem C08_convolveView_eq_C06 {α : Type} [Add α] [Mul α] [Zero α] (isZero : α → Bool) (cast : α → α) (m : Mode)
+    (mA : Int → α) (vA : View) (mW : Int → α) (vW : View) (h : FilterArgs vA vW true) :
+    convolveView 0 isZero cast m mA vA mW vW =
+      (((allPos vA.shape).map fun p =>
+        cast (C06.convAcc m (toImg mA vA) (C06.support isZero vW.shape (logical mW vW).toArray) p)).toArray).map
+        some :=
+  convolveView_eq_C06 isZero cast m mA vA mW vW h
+
+/-- **convolve is correct for any memory layout.** Over every commutative semiring, every border mode, every view of
+the image and of the weights: each output cell is the cast of the defining sum `Σ_j w[j]·f[border(p + j − c)]` of the
+logical arrays (`C06_convolve_eq_spec`). -/
+theorem C08_convolve_view_correct {R : Type} [CommSemiring R] (isZero : R → Bool)
+    (hz : ∀ x, isZero x = true → x = 0) (cast : R → R) (m : Mode)
+    (mA : Int → R) (vA : View) (mW : Int → R) (vW : View) (h : FilterArgs vA vW true) :
+    convolveView 0 isZero cast m mA vA mW vW =
+      (((allPos vA.shape).map fun p =>
+        cast (C06.convSpec m (toImg mA vA) vW.shape (logical mW vW).toArray p)).toArray).map some := by
+  rw [convolveView_eq_C06 isZero cast m mA vA mW vW h]
+  congr 2
+  apply List.map_congr_left
+  intro p _
+  rw [C06_convolve_eq_spec isZero hz m (toImg mA vA) h.posA.pos]
+
+/-- **rank_filter over views = `C07.rankAt`** at every pixel (`none` where the native kernel writes nothing defined). -/
+theorem C08_rankView_eq_C07 (m : Mode) (rank : Int) (mA : Int → Int) (vA : View) (mB : Int → Int) (vB : View)
+    (h : FilterArgs vA vB true) :
+    rankView m rank mA vA mB vB =
+      ((allPos vA.shape).map
+        (C07.rankAt m (toImg mA vA) (C07.footprint vB.shape (logical mB vB).toArray) rank)).toArray :=
+  rankView_eq_C07 m rank mA vA mB vB h
+
+/-- **rank_filter (median_filter) is correct for any memory layout**: every cell is the specification
+`C07.rankSpecAt` — the `k`-th smallest of the samples the mathematical border rule selects — of the logical arrays. -/
+theorem C08_rank_filter_view_correct (m : Mode) (rank : Int) (mA : Int → Int) (vA : View) (mB : Int → Int)
+    (vB : View) (h : FilterArgs vA vB true) :
+    rankView m rank mA vA mB vB =
+      ((allPos vA.shape).map
+        (C07.rankSpecAt m (toImg mA vA) (C07.footprint vB.shape (logical mB vB).toArray) rank)).toArray := by
+  rw [rankView_eq_C07 m rank mA vA mB vB h]
+  congr 1
+  apply List.map_congr_left
+  intro p _
+  exact C07_rank_eq_spec m (toImg mA vA) h.posA.pos _ rank p
+
+/-- **mean_filter over views = `C07.meanParts`** (`(sum, n)` per pixel). -/
+theorem C08_meanView_eq_C07 (m : Mode) (mA : Int → Int) (vA : View) (mB : Int → Int) (vB : View)
+    (h : FilterArgs vA vB true) :
+    meanView m mA vA mB vB =
+      (((allPos vA.shape).map
+        (C07.meanParts m (toImg mA vA) (C07.footprint vB.shape (logical mB vB).toArray))).toArray).map some :=
+  meanView_eq_C07 m mA vA mB vB h
+
+/-- **mean_filter is correct for any memory layout**: exact sum and number of the samples the border rule selects. -/
+theorem C08_mean_filter_view_correct (m : Mode) (mA : Int → Int) (vA : View) (mB : Int → Int) (vB : View)
+    (h : FilterArgs vA vB true) :
+    meanView m mA vA mB vB =
+      (((allPos vA.shape).map
+        (C07.meanSpecParts m (toImg mA vA) (C07.footprint vB.shape (logical mB vB).toArray))).toArray).map some := by
+  rw [meanView_eq_C07 m mA vA mB vB h]
+  congr 2
+  apply List.map_congr_left
+  intro p _
+  exact C07_mean_exact m (toImg mA vA) h.posA.pos _ p
+
+/-- **template_match over views = `C07.tmAt`** (template C-contiguous, as the wrapper passes it). -/
+theorem C08_tmView_eq_C07 (m : Mode) (mA : Int → Int) (vA : View) (mT : Int → Int) (vT : View)
+    (h : FilterArgs vA vT false) :
+    tmView m mA vA mT vT =
+      (((allPos vA.shape).map
+        (C07.tmAt m (toImg mA vA) vT.shape (logical mT vT).toArray)).toArray).map some :=
+  tmView_eq_C07 m mA vA mT vT h
+
+/-- **template_match is correct for any memory layout of the image**: the sum of squared differences `C07.tmSpecAt`. -/
+theorem C08_template_match_view_correct (m : Mode) (mA : Int → Int) (vA : View) (mT : Int → Int) (vT : View)
+    (h : FilterArgs vA vT false) :
+    tmView m mA vA mT vT =
+      (((allPos vA.shape).map
+        (C07.tmSpecAt m (toImg mA vA) vT.shape (logical mT vT).toArray)).toArray).map some := by
+  rw [tmView_eq_C07 m mA vA mT vT h]
+  congr 2
+  apply List.map_congr_left
+  intro p _
+  exact C07_template_match_ssd m (toImg mA vA) h.posA.pos _ _ p
+
+/-- **locmin_max over views = `C14.locModel`** with the neighbourhood `C14.neighbours` (centre removed; a centre entry
+left in `Bc` never beats the pixel itself, so it changes nothing). -/
+theorem C08_locView_eq_C14 (isMin : Bool) (mA : Int → Int) (vA : View) (mB : Int → Int) (vB : View)
+    (h : FilterArgs vA vB true) :
+    locView isMin mA vA mB vB =
+      (C14.locModel isMin (toImg mA vA) (C14.neighbours vB.shape (logical mB vB).toArray)).map some :=
+  locView_eq_C14 isMin mA vA mB vB h
+
+/-- **locmax/locmin are correct for any memory layout**: with a star-shaped neighbourhood (cross, box, disk) a pixel is
+marked exactly when no neighbour *inside the image* beats it (`C14_locmax_eq_spec`). -/
+theorem C08_locminmax_view_correct (isMin : Bool) (mA : Int → Int) (vA : View) (mB : Int → Int) (vB : View)
+    (h : FilterArgs vA vB true)
+    (hstar : C14.StarShaped (C14.neighbours vB.shape (logical mB vB).toArray)) :
+    locView isMin mA vA mB vB =
+      (((allPos vA.shape).map
+        (C14.locSpecAt isMin (toImg mA vA) (C14.neighbours vB.shape (logical mB vB).toArray))).toArray).map some := by
+  rw [locView_eq_C14 isMin mA vA mB vB h]
+  unfold C14.locModel
+  congr 2
+  apply List.map_congr_left
+  intro p hp
+  obtain ⟨hin, hpl⟩ := C10.mem_allPos _ _ hp
+  apply C14_locmax_eq_spec isMin (toImg mA vA) _ p hin _ hstar
+  intro k hk
+  rw [C14_neighbours_eq] at hk
+  simp only [List.mem_map] at hk
+  obtain ⟨kk, _, rfl⟩ := hk
+  rw [offAt_length, hpl]
+  exact h.rank.symm
+
+/-- **labeled.borders over views = `C13.bordersModel`.** -/
+theorem C08_bordersView_eq_C13 (m : Mode) (mA : Int → Int) (vA : View) (mB : Int → Int) (vB : View)
+    (h : FilterArgs vA vB true) :
+    bordersView m mA vA mB vB =
+      ((C13.bordersModel m vA.shape (logical mA vA) (C03.offsets vB.shape (logical mB vB).toArray)).map
+        some).toArray :=
+  bordersView_eq_C13 m mA vA mB vB h
+
+/-- **labeled.borders is correct for any memory layout**: a pixel is marked exactly when one of the neighbours the
+element and the mathematical border rule of the mode define carries a different label (`C13_borders_spec`). -/
+theorem C08_borders_view_correct (m : Mode) (mA : Int → Int) (vA : View) (mB : Int → Int) (vB : View)
+    (h : FilterArgs vA vB true) :
+    bordersView m mA vA mB vB =
+      ((C13.bordersSpec m vA.shape (logical mA vA) (C03.offsets vB.shape (logical mB vB).toArray)).map
+        some).toArray := by
+  rw [bordersView_eq_C13 m mA vA mB vB h, C13_borders_spec m vA.shape _ _ h.posA.pos]
+
+/-- **hitmiss over views = `C14.hitmissAt`, no bound assumed.** Wherever the loop control lets the template be
+evaluated the template fits, so every `i + delta` is the flat index of the inside position `p + k − centre` (the
+argument of `C10_hitmiss_in_bounds`, re-derived here for the pointwise loop control `C14.hmEvaluated`, odd and even
+template sizes); `at_flat` (F8) then reads that logical element, whatever the strides. -/
+theorem C08_hitmissView_eq_C14 (mA : Int → Int) (vA : View) (mB : Int → Int) (vB : View) (wfA : vA.WF) (wfB : vB.WF)
+    (hl : vB.shape.length = vA.shape.length) :
+    hitmissView mA vA mB vB =
+      (((allPos vA.shape).map
+        (C14.hitmissAt (toImg mA vA) vB.shape (C14.hmEntries vB.shape (logical mB vB).toArray))).toArray).map
+        some :=
+  hitmissView_eq_C14 mA vA mB vB wfA wfB hl
+
+/-- **hitmiss is layout-free** (replaces `C08_hitmiss_layout_free_partial`: the in-bounds hypothesis is gone). -/
+theorem C08_hitmiss_layout_free (mA₁ mA₂ mB₁ mB₂ : Int → Int) (vA₁ vA₂ vB₁ vB₂ : View)
+    (wA₁ : vA₁.WF) (wA₂ : vA₂.WF) (wB₁ : vB₁.WF) (wB₂ : vB₂.WF) (hl : vB₁.shape.length = vA₁.shape.length)
+    (hA : SameLogical mA₁ vA₁ mA₂ vA₂) (hB : SameLogical mB₁ vB₁ mB₂ vB₂) :
+    hitmissView mA₁ vA₁ mB₁ vB₁ = hitmissView mA₂ vA₂ mB₂ vB₂ := by
+  rw [hitmissView_eq_C14 mA₁ vA₁ mB₁ vB₁ wA₁ wB₁ hl,
+    hitmissView_eq_C14 mA₂ vA₂ mB₂ vB₂ wA₂ wB₂ (by rw [← hA.1, ← hB.1]; exact hl),
+    hA.toImg_eq, (logical_eq_of_toImg _ _ _ _ hB.toImg_eq).1, hA.1, hB.1]
+
+/-- **hitmiss is correct for any memory layout**: for templates with odd sides the output is 1 exactly where the
+whole template lies inside the image and every 0/1 entry equals the pixel under it (`C14_hitmiss_eq_spec`). -/
+theorem C08_hitmiss_view_correct (mA : Int → Int) (vA : View) (mB : Int → Int) (vB : View) (wfA : vA.WF)
+    (wfB : vB.WF) (hl : vB.shape.length = vA.shape.length) (hne : vA.shape ≠ [])
+    (hodd : ∀ b ∈ vB.shape, b % 2 = 1) :
+    hitmissView mA vA mB vB =
+      (((allPos vA.shape).map
+        (C14.hitmissSpecAt (toImg mA vA) vB.shape (logical mB vB).toArray)).toArray).map some := by
+  rw [hitmissView_eq_C14 mA vA mB vB wfA wfB hl]
+  congr 2
+  apply List.map_congr_left
+  intro p hp
+  exact C14_hitmiss_eq_spec (toImg mA vA) vB.shape _ p hodd hne hl (C10.mem_allPos _ _ hp).2
+
+/-- **bbox is correct for any memory layout** (both code paths): all zeros for an image without non-zero pixel,
+otherwise the box left by the scan of the logical array, which `C13_bbox_generic_tight` shows tight on every axis. -/
+theorem C08_bbox_view_correct (mA : Int → Int) (vA : View) (wf : vA.WF) (hnd : 0 < vA.shape.length) :
+    let data := logical mA vA
+    let ps := ((List.range data.length).filter fun i => data.getD i 0 ≠ 0).map (unravelI vA.shape)
+    let ext := (List.range data.length).foldl (fun ext i =>
+      if data.getD i 0 ≠ 0 then C13.bboxUpdate ext (unravelI vA.shape i) else ext) (C13.bboxInit vA.shape)
+    (ps = [] → bboxView mA vA = (C13.bboxInit vA.shape).map (fun _ => 0)) ∧
+    (ps ≠ [] → bboxView mA vA = ext) := by
+  intro data ps ext
+  rw [(C08_bbox_layout_free mA vA wf).1]
+  exact C13_bbox_result vA.shape (logical mA vA) (logical_length mA vA) hnd
+
+/-- **center_of_mass is correct for any memory layout**: over any field, `Σ v·coord_j / Σ v` per label and axis of the
+logical image (`C13_com_eq`). -/
+theorem C08_center_of_mass_view_correct {α : Type} [Field α] (mA : Int → α) (vA : View) (wf : vA.WF)
+    (labels : List Int) :
+    comView (C13.fieldOps α) mA vA labels =
+      (List.range ((C13.maxOf labels).toNat + 1)).flatMap fun l =>
+        (List.range vA.shape.length).map fun j =>
+          (((List.range (logical mA vA).length).filter fun i => (labels.getD i 0).toNat = l).map fun i =>
+              (logical mA vA).getD i 0 * (((unravel vA.shape i).getD j 0 : Nat) : α)).sum /
+          (((List.range (logical mA vA).length).filter fun i => (labels.getD i 0).toNat = l).map fun i =>
+              (logical mA vA).getD i 0).sum := by
+  rw [(C08_center_of_mass_layout_free (C13.fieldOps α) mA mA vA vA wf wf labels ⟨rfl, fun _ _ => rfl⟩).1]
+  exact C13_com_eq vA.shape (logical mA vA) labels
